@@ -36,13 +36,50 @@ def gen_actions(r, prog, n, hand_n=0, tool_n=0, weights=None):
     w = dict(WEIGHTS)
     if weights:
         w.update(weights)
-    kinds = [k for k, v in w.items() for _ in range(v)]
+    kinds = [k for k, v in w.items() if k != "macro" for _ in range(v)]
     acts = []
-    for _ in range(n):
-        k = r.choice(kinds)
-        key = r.choice(NAV) if k == "nav" else k
+
+    def act(key):
         acts.append({"key": key, "tokens": [gen_token(r, prog, tab, names, hand_n, tool_n) for _ in range(r.choice([1, 2, 3]))]})
-    return acts
+
+    macro_p = w.get("macro", 6) / 100.0
+    while len(acts) < n:
+        if r.random() < macro_p:
+            # excursions that put the cursor into places ordinary navigation does not reach:
+            # rows only shown in show-all mode, menus reached by jump-to, deep rows of a sub-menu
+            m = r.choice(["showall", "showall", "jump", "deep"])
+            if m == "showall":
+                act("a")
+                if r.random() < 0.6:
+                    act("goto:hidden:%d" % r.randrange(4))
+                else:
+                    for _ in range(r.randint(0, 4)):
+                        act(r.choice(["down", "down", "up", "end"]))
+                act(r.choice(["enter", "enter", "space"]))
+                if r.random() < 0.5:
+                    act(r.choice(["goto:menu:%d" % r.randrange(4), "goto:last:0"]))
+                for _ in range(r.randint(0, 4)):
+                    act(r.choice(["down", "down", "end", "enter", "space"]))
+                if r.random() < 0.8:
+                    act("a")
+                act(r.choice(["left", "left", "escape", "y", "n", "r"]))
+            elif m == "jump":
+                act("slash")
+                for _ in range(r.randint(0, 4)):
+                    act(r.choice(["down", "down", "end", "enter"]))
+                act(r.choice(["left", "left", "escape", "space", "y", "r", "a"]))
+                act(r.choice(["left", "y", "n", "down"]))
+            else:
+                act(r.choice(["goto:menu:%d" % r.randrange(4), "enter"]))
+                act("enter")
+                for _ in range(r.randint(1, 5)):
+                    act(r.choice(["down", "end"]))
+                act(r.choice(["space", "y", "n", "r", "enter"]))
+                act("left")
+            continue
+        k = r.choice(kinds)
+        act(r.choice(NAV) if k == "nav" else k)
+    return acts[: n + 12]
 
 
 def write_tool_file(path, kpath, parser, policy, rn, hist, deprecated=False):
